@@ -89,6 +89,8 @@ def declare_cells(V, skel, prefix="c"):
                     dot = skel.get("dot", {}).get(f"{r}_{c}", w // 2 if w >= 3 else None)
                     if dot is not None and j == dot:
                         v = V.int(nm, 46, 46)
+                    elif j == skel.get("exp", {}).get(f"{r}_{c}", -1):       # scientific notation: the exponent mark at this position
+                        v = V.int(nm, 101, 101)
                     else:
                         v = V.int(nm, 48, 57)
                 else:
